@@ -39,6 +39,9 @@ type c18RouteHarvest struct {
 	Params   []c18Harvested `json:"params"`
 	Literals []c18Harvested `json:"literals"`
 	Headers  []c18Harvested `json:"headers"`
+	// functions reachable from the handler (with their call distance) that a regenerated C18 table marks as not
+	// covered by the model today (c18Suspects): the harness spends extra volume on these routes
+	Suspects []c18Harvested `json:"suspects"`
 }
 
 type c18Harvest struct {
@@ -256,7 +259,7 @@ func c18Facts(fd *ast.FuncDecl, consts map[string]string, isRoot bool) c18FuncFa
 	return f
 }
 
-func c18HarvestRoutes(p *pkgFiles) c18Harvest {
+func c18HarvestRoutes(p *pkgFiles, suspects map[string]string) c18Harvest {
 	consts := c18StringConsts(p)
 	idx := funcIndex(p)
 	facts := map[string]c18FuncFacts{}
@@ -367,7 +370,12 @@ func c18HarvestRoutes(p *pkgFiles) c18Harvest {
 				merge(&rh.Headers, ff.headers, depth[n])
 			}
 		}
-		for _, l := range []*[]c18Harvested{&rh.Params, &rh.Literals, &rh.Headers} {
+		for _, n := range names {
+			if why, ok := suspects[n]; ok {
+				rh.Suspects = append(rh.Suspects, c18Harvested{Name: n, Depth: depth[n], Where: why})
+			}
+		}
+		for _, l := range []*[]c18Harvested{&rh.Params, &rh.Literals, &rh.Headers, &rh.Suspects} {
 			s := *l
 			sort.SliceStable(s, func(i, j int) bool {
 				if s[i].Depth != s[j].Depth {
@@ -825,10 +833,48 @@ func c18Tables(v *bytes.Buffer, out string, kmd *pkgFiles) {
 	writeTable(v, "text_template_sites", "(function, holder, class, constructor) of every construction/extension of a text/template value in cmd/keymasterd; class: buffer-only | response | unresolved", 4, c18TextTemplateSites(kmd, ti, execs))
 	writeTable(v, "content_type_writers", "(function, declared Content-Type, class of the hand-written response writes of the same function: none | literal | non-literal)", 3, c18ContentTypeWriters(kmd))
 	c18ContextTables(v, kmd)
-	writeTable(v, "hand_built_markup", "(function, position class of the non-constant leaf: text | attr-dq | attr-sq | attr-unquoted | url-attr-... | tag | ... , escaper: escaped | base64 | raw, attribute, leaf) of every value converted to template.HTML and friends, per alternative assignment (c18_handbuilt.go); (function, constant, literal, -, expression) for values without a non-constant leaf", 5, c18HandBuiltMarkup(kmd))
+	hb := c18HandBuiltMarkup(kmd)
+	writeTable(v, "hand_built_markup", "(function, position class of the non-constant leaf: text | attr-dq | attr-sq | attr-unquoted | url-attr-... | tag | ... , escaper: escaped | base64 | raw, attribute, leaf) of every value converted to template.HTML and friends, per alternative assignment (c18_handbuilt.go); (function, constant, literal, -, expression) for values without a non-constant leaf", 5, hb)
 	writeTable(v, "admin_routes", "(path expression, handler expression, registered under a condition) of every registration main() makes on http.DefaultServeMux = the admin port (c18_admin.go; copied to c18_admin_gen.go)", 3, c18AdminMux(kmd, out))
-	h := c18HarvestRoutes(kmd)
+	h := c18HarvestRoutes(kmd, c18Suspects(hb, execs, directMarkupWrites(kmd)))
 	if b, err := json.MarshalIndent(h, "", " "); err == nil {
 		os.WriteFile(filepath.Join(out, "c18_harvest.json"), b, 0644)
 	}
+}
+
+// functions whose rows do not satisfy the obligations of coq/obl/Obl_C18.v over the hand-built-markup, template-
+// execution and direct-write tables (the same predicates, evaluated here only to tell the generator WHERE to try
+// harder; the verdict stays with the obligations)
+func c18Suspects(handBuilt, execs, writes []row) map[string]string {
+	out := map[string]string{}
+	in := func(s string, l ...string) bool {
+		for _, x := range l {
+			if s == x {
+				return true
+			}
+		}
+		return false
+	}
+	for _, r := range handBuilt {
+		if len(r.cols) < 5 {
+			continue
+		}
+		cls, esc := r.cols[1], r.cols[2]
+		ok := esc == "literal" || esc == "escaped" && in(cls, "text", "rcdata", "attr-dq", "attr-sq") ||
+			esc == "base64" && in(cls, "text", "attr-dq", "attr-sq", "url-attr-prefixed", "url-attr-rooted")
+		if !ok {
+			out[r.cols[0]] = "hand-built markup: " + esc + " leaf in position " + cls + " (" + r.where + ")"
+		}
+	}
+	for _, r := range execs {
+		if len(r.cols) >= 4 && r.cols[3] != "buffer" && r.cols[2] != "html" {
+			out[r.cols[0]] = "template of package " + r.cols[2] + " executed into " + r.cols[3] + " (" + r.where + ")"
+		}
+	}
+	for _, r := range writes {
+		if len(r.cols) >= 2 && r.cols[1] == "with-args" && r.cols[0] != "ServeHTTP" {
+			out[r.cols[0]] = "hand-written markup with arguments (" + r.where + ")"
+		}
+	}
+	return out
 }
